@@ -191,7 +191,11 @@ fn families(tier: Tier) -> Vec<(&'static str, Vec<String>, usize)> {
                 "ZRANGEBYSCORE k1 -inf +inf WITHSCORES LIMIT 1 1", "ZRANGEBYSCORE k1 0 0",
                 "DEL k1", "EXPIRE k1 100", "TTL k1", "TYPE k1", "EXISTS k1", "SET k1 s",
             ],
-            vec![zadd],
+            vec![
+                zadd,
+                // restrictive lower bound combined with a LIMIT offset (the offset counts matching members only)
+                prod("ZRANGEBYSCORE k1 {lo} {hi} LIMIT {off} {cnt}", &[("lo", &["-inf", "1", "(0"]), ("hi", &["+inf", "(2"]), ("off", &["0", "1"]), ("cnt", &["1", "-1"])]),
+            ],
         ),
         d(4, 6),
     ));
